@@ -23,6 +23,7 @@ EXPR_CHILDREN = [
 EXPR_CHILDREN_ML = [
     '(a +\n b)', 'a + \\\n b', 'f(a,\n  b)', '[a,\n b]', '(a if b\n else c)', "'''m\nl'''", '(a, # c\n b)',
     '(a\n and b)', '(lambda:\n a)', 'a[\n b]',
+    '(a + # c \\\n b)', '(a # c:\\tmp\\\n .b)',  # a comment that ends in a backslash is not a line continuation
 ]
 
 PATTERN_CHILDREN = [
